@@ -710,7 +710,8 @@ class CDSInterval(AbstractFeatureInterval):
             # lift this back to chromosome coordinates -- this produces a chromosome coordinate Location
             # whose bounds are the portion of this CDS that are contained on the sequence chunk
             loc_on_chrom = chunk_relative_cleaned_location.lift_over_to_first_ancestor_of_type(SequenceType.CHROMOSOME)
-            offset += self._calculate_frame_offset(relative_loc, loc_on_chrom)
+            # the bases removed from the 5' end are counted from the start of the CDS: the window and the chunk both remove some
+            offset += self._calculate_frame_offset(loc, loc_on_chrom)
             return chunk_relative_cleaned_location, offset
         else:
             offset += self._calculate_frame_offset(loc, relative_loc)
@@ -796,7 +797,8 @@ class CDSInterval(AbstractFeatureInterval):
             # lift this back to chromosome coordinates -- this produces a chromosome coordinate Location
             # whose bounds are the portion of this CDS that are contained on the sequence chunk
             loc_on_chrom = chunk_relative_cleaned_location.lift_over_to_first_ancestor_of_type(SequenceType.CHROMOSOME)
-            offset = self._calculate_frame_offset(relative_cleaned_location, loc_on_chrom)
+            # counted from the 5' end of the cleaned CDS: the window and the chunk both remove bases there
+            offset = self._calculate_frame_offset(cleaned_location, loc_on_chrom)
             return chunk_relative_cleaned_location, offset
         else:
             offset = self._calculate_frame_offset(cleaned_location, relative_cleaned_location)
